@@ -317,6 +317,9 @@ class Interp:
             assigned.add('$k%d' % ordinal)
         mods = spec.modifies(self, env) if spec.modifies else []
         mods = list(mods) + [('*', f) for f in (getattr(spec, 'heap_fields_modified', []) or [])]
+        if getattr(self.w, 'extra_mods', None) and path.startswith('hsm.HsmEventProcessor.'):
+            # loops of the core call state functions; spy-decorated ones write the instrumentation fields
+            mods += [m for m in self.w.extra_mods(self, env) if m[0] is not None]
         for nm in sorted(assigned):
             if nm in env:
                 env[nm] = self.havoc_value(nm, env[nm], spec)
@@ -703,7 +706,7 @@ class Interp:
                 if attr in self.src.namedtuples:
                     return SClass('namedtuple:' + attr)      # self.X = namedtuple(...) made in __init__
                 return c.read(obj, attr)
-            if pt == 'state' or pt == 'fn':
+            if pt in ('state', 'fn', 'rawstate'):
                 if attr == '__name__':
                     return SRef(name_of(obj.e), 'str')
                 if attr == '__closure__':
@@ -733,7 +736,7 @@ class Interp:
             return
         if (obj.e.sexpr(), attr) in getattr(c, 'world_set_attrs', ()):
             return
-        c.fail('%s:defined/%s.%s' % (self.where(), pt, attr))
+        c.fail('%s:defined/%s.%s' % (self.where(), pt, attr), tags=('defined',))
 
     def where(self):
         fr = self.c.frames[-1]
@@ -911,6 +914,11 @@ class Interp:
         if isinstance(fv, SClass):
             return B.construct(self, fv, args, kwargs, node)
         if isinstance(fv, SRef):
+            if fv.pytype == 'rawstate':
+                hook = self.w.hooks.get('call_rawstate')
+                if hook is None:
+                    raise Unsupported('call of an undecorated state function without a model')
+                return hook(self, fv, args, kwargs)
             if fv.pytype == 'state':
                 hook = self.w.hooks.get('call_state')
                 if hook is None:
